@@ -42,6 +42,11 @@ impl<const ID: usize> Copy for Ctr<ID> {}
 pub fn ctr_reset() { unsafe { CTR = [0; 6]; } }
 pub fn ctr_counts() -> [u8; 6] { unsafe { CTR } }
 
+/// newtype reachable from an integer literal only through Into
+#[derive(Clone, Copy, PartialEq, Eq, Debug, Default)]
+pub struct W(pub i32);
+impl From<i32> for W { fn from(v: i32) -> Self { W(v.wrapping_mul(2)) } }
+
 /// partially ordered byte: 255 is incomparable with everything (NaN-like)
 #[derive(Clone, Copy, Debug, PartialEq)]
 pub struct Inc(pub u8);
@@ -181,6 +186,14 @@ impl Src for RandSrc {
         f32::from_bits(self.u32())
     }
 }
+
+/// structural sameness (f32/f64 by bits) used by value oracles
+pub trait Same { fn same(&self, o: &Self) -> bool; }
+macro_rules! same_eq { ($($t:ty),*) => { $(impl Same for $t { fn same(&self, o: &Self) -> bool { self == o } })* } }
+same_eq!(u8, u16, u32, u64, usize, i8, i16, i32, i64, isize, bool, char, (), &'static str, String, crate::m::K, crate::m::W, Option<u8>, [u8; 4]);
+impl Same for f32 { fn same(&self, o: &Self) -> bool { self.to_bits() == o.to_bits() } }
+impl Same for f64 { fn same(&self, o: &Self) -> bool { self.to_bits() == o.to_bits() } }
+impl<const ID: usize> Same for crate::m::Ctr<ID> { fn same(&self, o: &Self) -> bool { self.0 == o.0 } }
 
 /// recording Hasher: every write is stored with a type tag, in call order (capacity 32 bytes)
 #[derive(Clone, Copy, PartialEq, Eq, Debug)]
